@@ -96,6 +96,19 @@ class Gen:
             return all(self.hashable_type(f[1]) for f in ty['fields'])
         return False
 
+    def key_type_ok(self, ty):
+        """hashable AND its dumped form is hashable (a frozenset dumps to a list: impossible as a dict key)"""
+        t = ty['t']
+        if t == 'seq':
+            return False
+        if t in ('tuple', 'union'):
+            return all(self.key_type_ok(e) for e in ty['es'])
+        if t in ('vartuple', 'opt'):
+            return self.key_type_ok(ty['e'])
+        if t == 'nt':
+            return all(self.key_type_ok(f[1]) for f in ty['fields'])
+        return self.hashable_type(ty)
+
     # wire type of the dumped value (what UnionParser can tell apart by `type(o) is base_type`)
     def wire(self, ty):
         t = ty['t']
@@ -120,7 +133,7 @@ class Gen:
         if ctx == 'dictval':
             return {'t': 'dict', 'k': 'dict', 'kt': {'t': 'str'}, 'vt': inner}
         if ctx == 'dictkey':
-            return {'t': 'dict', 'k': 'dict', 'kt': inner, 'vt': {'t': 'int'}} if self.hashable_type(inner) else None
+            return {'t': 'dict', 'k': 'dict', 'kt': inner, 'vt': {'t': 'int'}} if self.key_type_ok(inner) else None
         if ctx == 'defaultdict':
             return {'t': 'dict', 'k': 'defaultdict', 'kt': {'t': 'str'}, 'vt': inner}
         if ctx == 'ordered':
